@@ -286,8 +286,14 @@ VH_CMD(cmpct)
             }
             break;
         case 5: { // prefilled index games
-            const auto k = rng.below(4);
-            if (k == 0) raw.prefilled.emplace_back(0xffff, block.vtx[0]);                     // far beyond the end
+            const auto k = rng.below(6);
+            if (k >= 4) {
+                // boundary: the last prefilled entry lands exactly one past the highest admissible position (k == 4) / exactly on it (k == 5)
+                int64_t last = -1;
+                for (const auto& pf : raw.prefilled) last += static_cast<int64_t>(pf.first) + 1;
+                const int64_t abs_idx = static_cast<int64_t>(raw.shortids.size() + raw.prefilled.size()) + (k == 4 ? 1 : 0);
+                raw.prefilled.emplace_back(static_cast<uint64_t>(abs_idx - last - 1), block.vtx[0]);
+            } else if (k == 0) raw.prefilled.emplace_back(0xffff, block.vtx[0]);                     // far beyond the end
             else if (k == 1) raw.prefilled.emplace_back(raw.shortids.size() + 3, block.vtx[0]); // just beyond the end
             else if (k == 2) {
                 for (int i = 0; i < 3; ++i) raw.prefilled.emplace_back(0xfffe, block.vtx[0]); // accumulated index overflows 16 bits
